@@ -180,7 +180,7 @@ def make_case(rng, maxn=400, workers=None, fail_fast=None, cancel=False, family=
 # running
 # ------------------------------------------------------------------------------------------------
 
-def run_impl(ctx, cases, chunk=40):
+def run_impl(ctx, cases, chunk=40, max_hangs=None):
     """Run cases on the real walker. A driver death (Go runtime fatal error) is isolated by
     re-running the chunk case by case. Returns list of replies (dict), a crashed case has key 'crash'."""
     outs = []
@@ -198,6 +198,8 @@ def run_impl(ctx, cases, chunk=40):
                     one = {"crash": True, "stderr": one.get("stderr", "")[-3000:]}
                 res.append(one)
         outs += res
+        if max_hangs is not None and sum(1 for o in outs if o.get("hang")) >= max_hangs:
+            break       # enough evidence; every further hang costs the full time bound (the caller truncates its case list)
     return outs
 
 
